@@ -324,8 +324,10 @@ def run_hashworker(hashseed, seeds, names):
 
 def judge_hashproc(name, seed, hashseeds):
     res = {}
-    for h in hashseeds:
-        d = run_hashworker(h, [seed], [name])
+    others = ['dynamic_obstacles.5x5', 'teleport.5x5', 'memory.5x5', 'keydoor.5x5']
+    for i, h in enumerate(hashseeds):
+        order = [name] + others if i % 2 == 0 else others + [name]
+        d = {k: v for k, v in run_hashworker(h, [seed], order).items() if k.startswith(name + '|')}
         res.setdefault(json.dumps(d, sort_keys=True), []).append(h)
     if len(res) > 1:
         return f'{name} seed {seed}: trajectories differ between interpreter processes with PYTHONHASHSEED {sorted(res.values())}'
@@ -422,8 +424,14 @@ def run(rep, tier, seed):
     # across processes
     hashseeds = [0, 1, 2] + ([3, 4, 100 + seed] if tier != 'quick' else [100 + seed])
     names = all_names if tier != 'quick' else ['memory.5x5', 'memory_four_rooms.7x7', 'keydoor.5x5', 'teleport.5x5', 'synthetic',
-                                                'dynamic_obstacles.5x5', 'memory_nine_rooms.10x10', 'four_rooms.7x7']
-    results = pmap(lambda h: run_hashworker(h, seeds[:2], names), hashseeds)
+                                                'dynamic_obstacles.5x5', 'dynamic_obstacles.7x7', 'memory_nine_rooms.10x10', 'four_rooms.7x7',
+                                                'teleport.7x7']
+    # the processes also differ in WHAT ELSE ran in them before each configuration (order of the configurations: as listed,
+    # reversed, rotated): a trajectory must not depend on which other environments the process has hosted
+    def order_for(i):
+        return names if i % 3 == 0 else (list(reversed(names)) if i % 3 == 1 else names[len(names) // 2:] + names[:len(names) // 2])
+
+    results = pmap(lambda ih: run_hashworker(ih[1], seeds[:2], order_for(ih[0])), list(enumerate(hashseeds)))
     keys = sorted(results[0])
     pn = 0
     for key in keys:
@@ -434,7 +442,7 @@ def run(rep, tier, seed):
         if len(vals) > 1:
             cfg, sd, si = key.split('|')
             fails.append({'kind': 'hashproc', 'config': cfg, 'seed': int(sd), 'hashseeds': hashseeds,
-                          'message': f'{cfg} seed {sd}: trajectories differ between interpreter processes: PYTHONHASHSEED groups {sorted(vals.values())}',
+                          'message': f'{cfg} seed {sd}: trajectories differ between interpreter processes (different PYTHONHASHSEED and different order of the other configurations run in the process): groups {sorted(vals.values())}',
                           'sig': {'part': 'hash_order', 'fn': cfg.split('.')[0]}})
     rep.part('hash_order_across_processes', hashseeds=hashseeds, configs=names, trajectories=pn)
     seen = set()
